@@ -327,6 +327,13 @@ def Input.model : Input → Option Tables
   | .generic n => genericPrepare n
   | .roach n => some (roachPrepare n)
 
+/-- every dimension of the geometry fits the 16-bit fields of the row/column code -/
+def Input.fits16 : Input → Bool
+  | .lancero c => c.devs.all fun d => decide (d.nrows < 65536) && decide (d.ncols < 65536)
+  | .abaco p => decide ((abacoKeys p).length < 65536) && (abacoKeys p).all fun g => decide (g.n < 65536)
+  | .generic n => decide (n < 65536)
+  | .roach n => decide (n < 65536)
+
 def evens {α} : List α → List α
   | a :: _ :: r => a :: evens r
   | l => l
@@ -348,8 +355,10 @@ inductive Bad where
 deriving DecidableEq, Repr
 
 /-- The property, clause by clause, on identity tables of an ACCEPTED configuration.
-`tdm` = two streams (error, feedback) per pixel; `geom` = the true geometry per pixel. -/
-def chkTables (tdm : Bool) (geom : List (Nat × Nat × Nat × Nat)) (t : Tables) : Option Bad :=
+`tdm` = two streams (error, feedback) per pixel; `geom` = the true geometry per pixel; `dec` = what the
+row/column code of each stream decodes to (by the real accessors when judging the implementation). -/
+def chkTables (tdm : Bool) (geom : List (Nat × Nat × Nat × Nat)) (t : Tables)
+    (dec : List (Nat × Nat × Nat × Nat)) : Option Bad :=
   let nums := t.streams.map (·.num)
   let pix := if tdm then evens nums else nums
   if t.streams.length ≠ t.nchan then some .tableLengths
@@ -362,7 +371,7 @@ def chkTables (tdm : Bool) (geom : List (Nat × Nat × Nat × Nat)) (t : Tables)
   -- the reported groups cover exactly the channel numbers in use
   else if !sameSet pix (allChans t.groups) then some .groupsCover
   -- the row/column codes decode to the true geometry
-  else if t.streams.map decoded ≠ (if tdm then dup2 geom else geom) then some .geometry
+  else if dec ≠ (if tdm then dup2 geom else geom) then some .geometry
   else none
 
 /-- The property on what a START gave the file writers, relative to the tables reported as status. -/
@@ -377,7 +386,7 @@ def chkFiles (t : Tables) (fs : List FileId) : Option Bad :=
 def chkC19 (inp : Input) (out : Option Tables) : Option Bad :=
   match out with
   | none => none
-  | some t => chkTables inp.isTDM inp.geom t
+  | some t => chkTables inp.isTDM inp.geom t (t.streams.map decoded)
 
 def Bad.sig : Bad → String
   | .tableLengths => "C19:table-lengths identity tables of unequal length / not nchan entries"
@@ -385,7 +394,7 @@ def Bad.sig : Bad → String
   | .numberCollision => "C19:number-collision two different (card,column,row) got the same channel number in an accepted configuration"
   | .nameCollision => "C19:name-collision two streams share a name (and so an output file name)"
   | .groupsCover => "C19:groups-cover the reported channel groups do not cover exactly the channel numbers in use"
-  | .geometry => "C19:rccode-geometry a row/column code does not decode to the true geometry (16-bit field overflow)"
+  | .geometry => "C19:rccode-geometry a row/column code does not decode to the true geometry although every dimension fits 16 bits"
   | .fileCollision => "C19:filename-collision two output files share a name"
   | .headerIdentity => "C19:header-identity file header identity differs from the reported tables"
 
@@ -490,7 +499,11 @@ def judge (inp : Input) (res : RRes) (what : String) : Except Verdict (Option Ta
   | .tables o =>
     let t := o.tables
     if o.nchanI < 0 then .error (.viol (Bad.sig .tableLengths)) else
-    match chkC19 inp (some t) with
+    match chkTables inp.isTDM inp.geom t (o.rs.map (·.dec)) with
+    | some .geometry =>
+      -- a dimension beyond 16 bits is the recorded finding; a wrong code within the limits is not
+      if inp.fits16 then .error (.viol (Bad.sig .geometry))
+      else .error (.viol "C19:rccode-overflow16 a dimension above 65535 does not fit the 16-bit fields of the row/column code: it decodes to the wrong geometry")
     | some b => .error (.viol b.sig)
     | none =>
       match inp.model with
